@@ -306,13 +306,14 @@ Definition root_id : ident := (0, 0).
 (* "if not self.header.parent_table_idx: return None" — the offset is ignored for the root *)
 Definition norm_par (p : ident) : ident := if fst p =? 0 then root_id else p.
 
+(* l_par is normalised: (0, 0) for every root entry *)
 Record lentry := {
   l_id : ident; l_par : ident; l_key : list Z; l_keyok : bool;
   l_free : bool; l_isnode : bool; l_val : res value }.
 
 Definition lentry_of (f : file) (fo : fobjs) (tidx : Z) (r : rentry) : lentry :=
   {| l_id := (tidx, r_off r);
-     l_par := (kh_pidx (r_hdr r), kh_poff (r_hdr r));
+     l_par := norm_par (kh_pidx (r_hdr r), kh_poff (r_hdr r));
      l_key := key_bytes r;
      l_keyok := utf8_valid (key_bytes r);
      l_free := e_typ r =? K.skipped_type;
@@ -346,7 +347,7 @@ Definition dict_of (es : list lentry) : list (list Z * lentry) :=
   fold_left (fun d e => dict_set d (l_key e) e) es [].
 
 Definition children_of (es : list lentry) (pid : ident) : list (list Z * lentry) :=
-  dict_of (filter (fun e => id_eqb (norm_par (l_par e)) pid) es).
+  dict_of (filter (fun e => id_eqb (l_par e) pid) es).
 
 Fixpoint mapM {A B} (g : A -> res B) (l : list A) : res (list B) :=
   match l with
